@@ -32,7 +32,7 @@ type StandardClass struct {
 	pkg             *slip.Package
 	precedence      []slip.Symbol
 	defaultInitArgs map[string]slip.Object
-	initArgs        map[string]*SlotDef // map with keys of initargs
+	initArgs        map[string][]*SlotDef // map with keys of initargs, one SlotDef for each slot the initarg fills
 	initForms       map[string]*SlotDef
 	methods         map[string]*slip.Method
 	baseClass       slip.Symbol
@@ -388,14 +388,12 @@ func (c *StandardClass) mergeSupers() bool {
 		}
 		m.Combinations = append(m.Combinations, im.Combinations...)
 	}
-	c.initArgs = map[string]*SlotDef{}
+	c.initArgs = map[string][]*SlotDef{}
 	c.initForms = map[string]*SlotDef{}
 	for i := len(c.inherit) - 1; 0 <= i; i-- {
 		if sc, ok := c.inherit[i].(isStandardClass); ok {
 			for _, sd := range sc.slotDefMap() {
-				for _, ia := range sd.initargs {
-					c.initArgs[string(ia)] = sd
-				}
+				c.addInitArgs(sd)
 				if sd.initform != slip.Unbound {
 					c.initForms[sd.name] = sd
 				}
@@ -403,9 +401,7 @@ func (c *StandardClass) mergeSupers() bool {
 		}
 	}
 	for _, sd := range c.slotDefs {
-		for _, ia := range sd.initargs {
-			c.initArgs[string(ia)] = sd
-		}
+		c.addInitArgs(sd)
 		if sd.initform != slip.Unbound {
 			c.initForms[sd.name] = sd
 		}
@@ -456,7 +452,28 @@ func (c *StandardClass) slotDefMap() map[string]*SlotDef {
 	return c.slotDefs
 }
 
-func (c *StandardClass) initArgDef(name string) *SlotDef {
+// addInitArgs registers the initargs of a slot definition. An initarg can
+// fill more than one slot so a SlotDef is kept for each slot name with a more
+// specific definition of a slot replacing a less specific one.
+func (c *StandardClass) addInitArgs(sd *SlotDef) {
+	for _, ia := range sd.initargs {
+		key := string(ia)
+		sds := c.initArgs[key]
+		var replaced bool
+		for i, sd2 := range sds {
+			if sd2.name == sd.name {
+				sds[i] = sd
+				replaced = true
+				break
+			}
+		}
+		if !replaced {
+			c.initArgs[key] = append(sds, sd)
+		}
+	}
+}
+
+func (c *StandardClass) initArgDefs(name string) []*SlotDef {
 	return c.initArgs[name]
 }
 
